@@ -145,8 +145,13 @@ def rule_mirror(check):
         e = hir.call_args(inner)[1] if hir.is_call(inner) and hir.callee_name(inner) == "get_expr_or_spread" else inner
         o = pv.origins(f, e)
         atoms = gate.atoms_at(f, n)
+        arm = [hir.pat_variant(c["pat"]).split("::")[-1] for c in f.conds_at(n) if c["t"] == "pat" and c["v"] and isinstance(hir.pat_variant(c["pat"]), str) and "Expr::" in hir.pat_variant(c["pat"])]
+        same = all(r[0] == "param" and r[2] == 0 for r, p in o)
+        if arm[:1] == ["Lit"]:
+            check.expect(same, R, R + "/literal-inline", hir.loc(n), "literal operand pushed as is", "the literal arm pushes %s" % sorted(origin_str(x) for x in o))
+            continue
         kept = gate.has_eq_gate(atoms, "ident_mode", "IdentMode::Replace", False) or gate.has_eq_gate(atoms, "ident_mode", "IdentMode::Keep", True)
-        check.expect(all(r[0] == "param" and r[2] == 0 for r, p in o) and kept, R, R + "/kept-ident", hir.loc(n), "kept identifier pushed as is (mode != Replace)", "the Keep branch pushes %s" % sorted(origin_str(x) for x in o))
+        check.expect(same and kept, R, R + "/kept-ident", hir.loc(n), "kept identifier pushed as is (mode != Replace)", "the Keep branch pushes %s" % sorted(origin_str(x) for x in o))
 
 
 def rule_hook_shape(check):
